@@ -225,10 +225,16 @@ def run_whole(case, counters, viol, nontrivial):
     g = np.random.default_rng(case["seed"])
     xpn = case["xp"]
     proxy = RngProxy(int(g.integers(2**31)))
-    opts = {"rng": proxy, "adaptive": bool(g.random() < 0.7)}
+    capped_cell = case["seed"][-1] % 3 == 0  # every third run: a fixed schedule cut short by the cap, then enlarged
+    opts = {"rng": proxy, "adaptive": bool(g.random() < 0.55) and not capped_cell}
     if not opts["adaptive"]:
-        opts["n_steps"] = int(g.integers(1, 8))
-    if g.random() < 0.5:
+        opts["n_steps"] = int(g.integers(2 if capped_cell else 1, 8))
+        if opts["n_steps"] >= 2 and (capped_cell or g.random() < 0.6):
+            # the step cap ends the loop below temperature 1; the closing enlargement is then the move that takes the
+            # population to 1 and must select by the weights of that move
+            opts["max_n_steps"] = int(g.integers(1, opts["n_steps"]))
+            counters["runs_cut_short_by_the_step_cap"] += 1
+    if g.random() < 0.5 or "max_n_steps" in opts:
         opts["n_final_samples"] = int(g.integers(2, 90))
     rec = smcrun.Recorder(abort_on_stall=True, keep_vectors=False)
     rec.keep_resample_pops = True
@@ -264,6 +270,9 @@ def run_whole(case, counters, viol, nontrivial):
         where = f"{where0} resample#{k} beta {b0}->{b1} n_req={r['n_req']}"
         nsrc = src["x"].shape[0]
         want = nsrc if r["n_req"] is None else r["n_req"]
+        if r["n_req"] is not None and float(b1) != 1.0:
+            # the enlarged population is the one that is moved by the kernel at temperature 1 and handed back
+            viol.append({"mech": "C09/closing-enlargement-not-a-move-to-temperature-one", "detail": f"{where}: population at beta {b0!r} resampled for the final enlargement towards beta {b1!r}"})
         pref, arel = ref_p(src["ll"], src["lp"], src["lq"], b0, b1)
         counters["p_vectors_checked"] += 1
         eps = float(np.finfo(dt if not moving else str(src["ll"].dtype)).eps)
